@@ -10,7 +10,7 @@ import (
 )
 
 func init() {
-	register("C16", "Structural clauses of copy's include/exclude handling, decided on all paths of copier.copy, copyDirectory and createParentDirs: after an include miss or an exclude hit no creating, destructive or metadata call is reachable for the entry (copyDirectory with include=false creates nothing and reports created=false); deferred ancestors are created (checked) before any content; an ancestor created on demand receives the source directory's file info and xattrs and is marked copied; include and exclude match infos are never crossed, including the positional arguments of the recursion; matchers are built with patternmatcher.New from the caller's lists and queried with MatchesUsingParentResults like the walk. A source directory is always descended, whatever the verdicts (no pruning by pattern text). Metadata and xattrs of an ancestor created on demand are taken from the ancestor's source path in the callee's source position. Does not decide equality of the copied set with the reference filter.", runC16)
+	register("C16", "Structural clauses of copy's include/exclude handling, decided on all paths of copier.copy, copyDirectory and createParentDirs: after an include miss or an exclude hit no creating, destructive or metadata call is reachable for the entry (copyDirectory with include=false creates nothing and reports created=false); deferred ancestors are created (checked) before any content; an ancestor created on demand receives the source directory's file info and xattrs and is marked copied; include and exclude match infos are never crossed, including the positional arguments of the recursion; matchers are built with patternmatcher.New from the caller's lists and queried with MatchesUsingParentResults like the walk. A source directory is always descended, whatever the verdicts (no pruning by pattern text). Metadata and xattrs of an ancestor created on demand are taken from the ancestor's source path in the callee's source position. xattrs of a selected directory that already exists are re-applied with flags 0 (create or replace): the copy descends. Does not decide equality of the copied set with the reference filter.", runC16)
 }
 
 func runC16(c *Ctx) {
@@ -20,6 +20,11 @@ func runC16(c *Ctx) {
 	r16_4(c, "R16.4")
 	r16_5(c, "R16.5")
 	r16_6(c, "R16.6")
+	if c.Unix() {
+		// a selected directory that already exists is merged: its xattrs are
+		// re-applied, which must not abort the copy before it descends
+		xattrSetFlags(c, "R16.7")
+	}
 }
 
 // R16.6: whether a directory is selected or not, it is descended.
